@@ -90,8 +90,8 @@ func vMatcherHarness(bt bool) {
 	d, err := newEncoderDict(c.dictCap, c.bufSize, m)
 	vAssert(err == nil, "dictionary constructed")
 	n := 6
-	if vThorough() {
-		n = 7
+	if vThorough() && bt {
+		n = 7 // the tree matcher is cheap enough for one more byte; the hash-table harness forks far more
 	}
 	seq := vNondetBytes("b", n)
 	// zero bytes matter (an empty ring is all zeros): byte 0 is either 0 or arbitrary
